@@ -491,11 +491,31 @@ impl Compiler {
             } => {
                 // If this expression is a combination of a constant & a variable, create an optimized instruction for it that skips the stack
                 match (&**left, &**right) {
-                    (Expr::Identifier(name), Expr::Int { value })
-                    | (Expr::Int { value }, Expr::Identifier(name)) => {
+                    (Expr::Identifier(name), Expr::Int { value }) => {
                         let res = self.compile_const_var_infix_expression(name, *value, operator);
                         if res.is_ok() {
                             return res;
+                        }
+                    }
+                    (Expr::Int { value }, Expr::Identifier(name)) => {
+                        // The optimized instructions compute `variable <op> constant`, so with the constant
+                        // on the left the operator has to be mirrored (which not every operator allows)
+                        let mirrored = match operator {
+                            Operator::Add | Operator::Multiply | Operator::Eq | Operator::Neq => {
+                                Some(operator.clone())
+                            }
+                            Operator::Lt => Some(Operator::Gt),
+                            Operator::Lte => Some(Operator::Gte),
+                            Operator::Gt => Some(Operator::Lt),
+                            Operator::Gte => Some(Operator::Lte),
+                            _ => None,
+                        };
+                        if let Some(mirrored) = mirrored {
+                            let res =
+                                self.compile_const_var_infix_expression(name, *value, &mirrored);
+                            if res.is_ok() {
+                                return res;
+                            }
                         }
                     }
                     _ => (),
